@@ -304,13 +304,13 @@ def buckets(tier):
     bl = []
     for fam in M.FWD_SINGLE:
         bl.append(Bucket('operands:' + fam, (lambda fam=fam: M.meta_cases(tier, first=fam, families=M.CHEAP_TAIL, max_len=3)),
-                         prop_operands, {'quick': 20, 'thorough': 400}, nontrivial=_nt_prog, classes=M.base_classes))
+                         prop_operands, {'quick': 40, 'thorough': 400}, nontrivial=_nt_prog, classes=M.base_classes))
     bl.append(Bucket('operands:compose', (lambda: M.meta_cases(tier, max_len=8)), prop_operands,
-                     {'quick': 25, 'thorough': 500}, nontrivial=_nt_prog, classes=M.base_classes,
+                     {'quick': 40, 'thorough': 500}, nontrivial=_nt_prog, classes=M.base_classes,
                      shards={'quick': 4, 'thorough': 8}, weight=3.0))
     for fam in M.REV_SINGLE:
         bl.append(Bucket('tracer:' + fam, (lambda fam=fam: M.meta_cases(tier, first=fam, families=M.CHEAP_TAIL, max_len=3, reverse_mode=True)),
-                         prop_tracer, {'quick': 8, 'thorough': 150}, nontrivial=_nt_prog, classes=M.base_classes, weight=2.0))
+                         prop_tracer, {'quick': 20, 'thorough': 150}, nontrivial=_nt_prog, classes=M.base_classes, weight=2.0))
     bl.append(Bucket('tracer:compose', (lambda: M.meta_cases(tier, max_len=8, reverse_mode=True)), prop_tracer,
                      {'quick': 20, 'thorough': 300}, nontrivial=_nt_prog, classes=M.base_classes,
                      shards={'quick': 4, 'thorough': 8}, weight=5.0))
